@@ -323,6 +323,58 @@ theorem C13_parallel_rows_by_run (cls : Kwargs κ → Prog) (maxSteps : Nat) (pe
   exact ⟨filter_flatMap_key Run.runId BRow.runId _ (runRowsT_runId cls maxSteps period) order hnd' r (h.mem_iff.mpr hr),
     filter_flatMap_key Run.runId BRow.runId _ (runRowsT_runId cls maxSteps period) runs hnd r hr⟩
 
+/-- A completion order other than the submission order (`runp … late=j`, what the harness provokes with a slow design
+    point): `lateOrder j` hands back the runs of one design point after all the others — it is a permutation of the
+    work list, every run with other kwargs precedes every run of the late design point — and the observation made of it
+    (`batchRunLate`: the chunks ordered by RunId) is exactly the serial `batchRun`: the rows repeat the parameters of
+    their own run whatever the order in which the workers finish. -/
+theorem C13_late_completion [DecidableEq κ] (cls : Kwargs κ → Prog) (params : List (Nat × PVal κ))
+    (iterations maxSteps : Nat) (period : Int) (hp : period ≠ 0) (j : Nat) :
+    (∀ runs : List (Run κ), (lateOrder j runs).Perm runs ∧
+      ∀ r, runs[j]? = some r → ∃ a b, lateOrder j runs = a ++ b ∧ (∀ x ∈ a, x.kwargs ≠ r.kwargs) ∧
+        (∀ x ∈ b, x.kwargs = r.kwargs) ∧ r ∈ b) ∧
+    batchRunLate cls params iterations maxSteps period j = batchRun cls params iterations maxSteps period := by
+  have hperm : ∀ runs : List (Run κ), (lateOrder j runs).Perm runs := by
+    intro runs
+    unfold lateOrder
+    cases hj : runs[j]? with
+    | none => exact List.Perm.refl _
+    | some r =>
+      simp only
+      exact (List.perm_append_comm).trans (List.filter_append_perm (fun x => decide (x.kwargs = r.kwargs)) runs)
+  refine ⟨fun runs => ⟨hperm runs, ?_⟩, ?_⟩
+  · intro r hj
+    refine ⟨runs.filter (fun x => !(decide (x.kwargs = r.kwargs))), runs.filter (fun x => decide (x.kwargs = r.kwargs)),
+      by simp only [lateOrder, hj], ?_, ?_, ?_⟩
+    · intro x hx; simpa using (List.mem_filter.mp hx).2
+    · intro x hx; simpa using (List.mem_filter.mp hx).2
+    · exact List.mem_filter.mpr ⟨List.mem_of_getElem? hj, by simp⟩
+  · unfold batchRunLate batchRun
+    cases hw : iterLoop iterations 0 params with
+    | error e => rfl
+    | ok work =>
+      simp only [batchOrder_total cls maxSteps period hp]
+      congr 1
+      have hnd : ((number 0 work).map (·.runId)).Nodup := by
+        rw [number_runIds]; simpa using List.nodup_range
+      have hnd' : ((lateOrder j (number 0 work)).map (·.runId)).Nodup :=
+        (List.Perm.map _ (hperm _)).nodup_iff.mpr hnd
+      have hids : List.range work.length = (number 0 work).map (·.runId) := by
+        rw [number_runIds]; simp
+      unfold byRunId
+      rw [hids, List.flatMap_map]
+      have hc : ∀ (l : List (Run κ)) (f g : Run κ → List (BRow κ)), (∀ r ∈ l, f r = g r) → l.flatMap f = l.flatMap g := by
+        intro l f g h
+        induction l with
+        | nil => rfl
+        | cons x xs ih =>
+          simp only [List.flatMap_cons]
+          rw [h x (by simp), ih (fun r hr => h r (by simp [hr]))]
+      apply hc
+      intro r hr
+      exact filter_flatMap_key Run.runId BRow.runId _ (runRowsT_runId cls maxSteps period) _ hnd' r
+        ((hperm _).mem_iff.mpr hr)
+
 /-- Degenerate limits (`max_steps = 0`: `runModel p 0` is `construct p` by definition — no step is taken, what is
     reported is what the constructor collected; not a claim of this theorem).  A `data_collection_period` at least as large as the number `n` of collections the run made: exactly the first
     and the last collection are reported (once, if they are the same).  A run that never collected: no row. -/
